@@ -244,6 +244,27 @@ impl<'a, 'tcx> Cx<'a, 'tcx> {
     fn const_value(&self, o: &mut Vec<(&'static str, J)>, v: ConstValue, ty: Ty<'tcx>) {
         let tcx = self.tcx;
         match v {
+            ConstValue::Scalar(rustc_middle::mir::interpret::Scalar::Ptr(ptr, _)) => {
+                // &[u8; N] (e.g. the packed template of format_args!)
+                if let ty::Ref(_, inner, _) = ty.kind() {
+                    if let ty::Array(elem, len) = inner.kind() {
+                        if matches!(elem.kind(), ty::Uint(ty::UintTy::U8)) {
+                            if let Some(n) = len.try_to_target_usize(tcx) {
+                                let (prov, off) = ptr.prov_and_relative_offset();
+                                if let Some(rustc_middle::mir::interpret::GlobalAlloc::Memory(a)) = tcx.try_get_global_alloc(prov.alloc_id()) {
+                                    let a = a.inner();
+                                    let start = off.bytes() as usize;
+                                    let end = start + n as usize;
+                                    if end <= a.len() {
+                                        let bytes = a.inspect_with_uninit_and_ptr_outside_interpreter(start..end);
+                                        o.push(("bytes", J::s(String::from_utf8_lossy(bytes).to_string())));
+                                    }
+                                }
+                            }
+                        }
+                    }
+                }
+            }
             ConstValue::Scalar(s) => {
                 if let Ok(si) = s.try_to_scalar_int() {
                     let size = si.size();
